@@ -6,8 +6,9 @@ values and with the empty message, for every class, on the started fresh instanc
 and on the restored instance.  S4: every key-returning path carries the negated
 reflection comparison and a ReflectionThwarted path exists that differs from it in
 exactly that one condition."""
+import ast
 from ..terms import Const, Sym, App, Obj, mk_app, is_app, show, subterms
-from .. import session
+from .. import session, groupmodel as gm
 
 EXPECT_SIDE = {"SPAKE2_A": b"A", "SPAKE2_B": b"B", "SPAKE2_Symmetric": b"S"}
 PEER = {"SPAKE2_A": b"B", "SPAKE2_B": b"A", "SPAKE2_Symmetric": b"S"}
@@ -145,6 +146,13 @@ def check(ctx, world):
                         for k, fv in s.state.heap[cm.obj.oid].items():
                             if fv == own_out and k in ro.state.heap[ro.value.oid]:
                                 own2 = ro.state.heap[ro.value.oid][k]
+                        if own2 is None:
+                            # ... or a read-only property that yields it (e.g. re-encoding a stored element)
+                            for c in cm.cls.mro():
+                                for stn in c.node.body:
+                                    if isinstance(stn, ast.FunctionDef) and any(isinstance(d, ast.Name) and d.id == "property" for d in stn.decorator_list):
+                                        if gm.attr_of(ev, cm.obj, stn.name, s.state) == own_out and own2 is None:
+                                            own2 = gm.attr_of(ev, ro.value, stn.name, ro.state)
                         ctx.require(own2 is not None, "%s: restored instance has no field holding its outbound message" % cname)
                         same = session.norm_codec(own2) == session.norm_codec(own_out)
                         ctx.ob("S5", "%s[restored]" % cname, same,
